@@ -61,6 +61,7 @@ func cfgFor(prop string) genCfg {
 		c.keyids = []string{"touchless", "touch", "free_text", "hw_firefighter"}
 		//          list sgnrs via sign add addh rm rmall lock unl ext fwd adv uprm upadd uplock
 		c.weights = []int{16, 8, 4, 10, 10, 10, 5, 1, 1, 1, 0, 0, 14, 6, 3, 2, 0}
+		c.faults = 0.2
 	case "C08":
 		c.windows = []string{"current", "current", "forever", "past", "lapsing"}
 		c.keyids = []string{"touchless", "touch", "free_text"}
@@ -198,7 +199,12 @@ func genS(prop string) func(r *sim.Rng, tier string) any {
 		p.Steps = append(p.Steps, SStep{Op: "list"}, SStep{Op: "signers"})
 		if r.Bool(c.faults) {
 			kinds := refagent.AllFaults
-			if prop == "C08" {
+			if prop == "C07" {
+				// the underlying agent refuses (or botches) a request of the purge itself: removing an expired or
+				// orphaned identity, or the listing before it
+				p.Faults = append(p.Faults, refagent.PeerFault{At: -1, OnKind: pick(r, []string{"remove", "remove", "remove", "list"}), Nth: r.Intn(3),
+					Fault: pick(r, []string{refagent.FaultFail, refagent.FaultFail, refagent.FaultGarbage, refagent.FaultEmpty})})
+			} else if prop == "C08" {
 				// refusals and connection errors on lock / unlock
 				p.Faults = append(p.Faults, refagent.PeerFault{At: -1, OnKind: pick(r, []string{"lock", "unlock"}), Nth: r.Intn(2),
 					Fault: pick(r, []string{refagent.FaultFail, refagent.FaultFail, refagent.FaultCloseBefore, refagent.FaultGarbage})})
